@@ -470,6 +470,12 @@ fn finish(d: &Driver, case: &Case, b: usize, w: World, obs: Obs, m: Matched, con
     // C04: recovered next positions may not fall below what was handed out before the crash
     let mut hw = high_water(d, b);
     // an incarnation that did not survive (in-flight delete applied) has ended
+    let inflight_delete: Option<&String> = if b < n { if let Op::Delete { q } = &d.steps[b].op { Some(&d.names[*q]) } else { None } } else { None };
+    for (name, h) in &hw {
+        if !obs.queues.contains_key(name) && inflight_delete != Some(name) {
+            out.failures.push(fail("C04", "queue-with-positions-vanished-after-crash", b, format!("{where_}: a queue (name {} B) that had handed out positions up to {} and was never deleted no longer exists after recovery", name.len(), h)));
+        }
+    }
     hw.retain(|name, _| obs.queues.contains_key(name));
     for (name, h) in &hw {
         if let Some(oq) = obs.queues.get(name) {
